@@ -213,7 +213,7 @@ def gen_op(rng, maxoff):
         return ("FReadlines",)
     if k == "write":
         n = rng.choice([0, 1, 2, 3, 5, 9, rng.randrange(0, 20)])
-        return ("FWrite", bytes(rng.choice(b"ab\nc\n") for _ in range(n)))
+        return ("FWrite", bytes(rng.choice(b"ab\nc\n\r") for _ in range(n)))
     if k == "seek0":
         return ("FSeek", rng.randrange(0, maxoff), 0)
     if k == "seek1":
@@ -264,7 +264,7 @@ def gen_case(rng, disciplined):
     mode = rng.choice(MODES) if disciplined or rng.random() < 0.9 else "xbare"
     bufsize = rng.choice(BUFSIZES) if rng.random() < 0.8 else rng.randrange(2, 65537)
     exists = rng.random() < (0.1 if mode in ("x", "xbare") else 0.95 if mode in ("r", "r+") else 0.85)
-    alphabet = rng.choice([b"xy\n", b"xyz\n\n", bytes(range(256))])
+    alphabet = rng.choice([b"xy\n", b"xyz\n\n", b"ab\r\n", b"a\r\r\n\x0b\x0c\x1c\x1d\x1e\x85", bytes(range(256))])
     init = bytes(rng.choice(alphabet) for _ in range(rng.choice([0, 1, 3, 10, 20, rng.randrange(0, 60)])))
     n = rng.choice([1, 2, 3, 5, 8, 12, 20, 40])
     ops = [gen_op(rng, 40) for _ in range(n)]
